@@ -204,12 +204,54 @@ void harness(void) {
 #endif
   g_s.valid = true;
   if (g_k < in_end) { g_s.key = ((struct cbor_pair *)map->data)[g_k].key; g_s.value = ((struct cbor_pair *)map->data)[g_k].value; }
+#if defined(MAP_LEMMA)
+  /* Lemma style (no contract enforced on the function: with the conditional frame over the pair storage DFCC ran
+   * out of memory on every back end): the clauses of the specification are asserted here on the real function. */
+  size_t rc_key0 = key->refcount, rc_val0 = value->refcount, realloc0 = g_realloc_calls, live0 = g_live;
+  unsigned char *data0 = map->data;
+#endif
 #if defined(H_MAP_ADD_KEY)
   bool r = _cbor_map_add_key(map, key);
 #elif defined(H_MAP_ADD_VALUE)
   bool r = _cbor_map_add_value(map, value);
 #else
   bool r = cbor_map_add(map, (struct cbor_pair){.key = key, .value = value});
+#endif
+#if defined(MAP_LEMMA)
+  {
+    struct _cbor_map_metadata *m = &map->metadata.map_metadata;
+    struct cbor_pair *pairs = (struct cbor_pair *)map->data;
+    if (in_def) {
+      __CPROVER_assert(r == (in_end < in_alloc) && g_realloc_calls == realloc0 && m->allocated == in_alloc && map->data == data0,
+                       "C12: a definite map accepts exactly as many pairs as were preallocated, then refuses; no reallocation");
+    } else if (in_end < in_alloc) {
+      __CPROVER_assert(r && g_realloc_calls == realloc0 && m->allocated == in_alloc && map->data == data0,
+                       "C12: an indefinite map with room accepts without reallocating");
+    } else {
+      __CPROVER_assert(g_realloc_calls == realloc0 + 1 && g_last_req == (in_alloc == 0 ? 1 : 2 * in_alloc) * sizeof(struct cbor_pair),
+                       "C12,C20: a full indefinite map issues exactly one reallocation request of exactly the doubled capacity");
+      __CPROVER_assert(r ? m->allocated == (in_alloc == 0 ? 1 : 2 * in_alloc) : (g_refused && m->allocated == in_alloc),
+                       "C12,C20: geometric growth; refused only by the allocator");
+    }
+    if (r) {
+      __CPROVER_assert(m->end_ptr == in_end + 1 && m->end_ptr <= m->allocated && pairs[in_end].key == key,
+                       "C12: the new pair is appended in order, size <= capacity");
+#if defined(H_MAP_ADD_KEY)
+      __CPROVER_assert(pairs[in_end].value == NULL && key->refcount == rc_key0 + 1, "C12,C04: key stored with no value yet; the map took one reference");
+#else
+      __CPROVER_assert(pairs[in_end].value == value &&
+                       (key == value ? key->refcount == rc_key0 + 2 : (key->refcount == rc_key0 + 1 && value->refcount == rc_val0 + 1)),
+                       "C12,C04: pair stored; the map took one reference on key and value each");
+#endif
+    } else {
+      __CPROVER_assert(m->end_ptr == in_end && m->allocated == in_alloc && map->data == data0 && key->refcount == rc_key0 &&
+                       value->refcount == rc_val0 && g_live == live0,
+                       "C06,C12: a refused add leaves the map, the arguments and the allocator state exactly as before");
+    }
+    if (g_k < in_end)
+      __CPROVER_assert(pairs[g_k].key == g_s.key && pairs[g_k].value == g_s.value, "C12: earlier pairs survive, across a reallocation too");
+    __CPROVER_assert(m->allocated >= in_alloc, "C20,C12: capacity never shrinks");
+  }
 #endif
 #if defined(MAP_CASE_NOGROW)
   __CPROVER_assert(!(in_def && !r), "COVER definite map full: refused");
